@@ -160,3 +160,19 @@ pub fn module_diff(a: &dr::Module, b: &dr::Module) -> Option<String> {
     }
     None
 }
+
+/// The grammar entry of a core opcode, found in the harness's own map over the table's entries
+/// (neither `CoreInstructionTable::get` nor `lookup_opcode`, which are code under test).
+pub fn class_of(op: rspirv::spirv::Op) -> &'static rspirv::grammar::Instruction<'static> {
+    static MAP: std::sync::OnceLock<std::collections::HashMap<u32, &'static rspirv::grammar::Instruction<'static>>> = std::sync::OnceLock::new();
+    MAP.get_or_init(|| rspirv::grammar::CoreInstructionTable::iter().map(|e| (e.opcode as u32, e)).collect())
+        .get(&(op as u32))
+        .copied()
+        .unwrap_or_else(|| panic!("harness: opcode {:?} has no entry among the table's iter()", op))
+}
+
+/// A `dr::Instruction` value assembled from its public fields: the harness's expectations must not
+/// pass through `dr::Instruction::new`, which is code under test.
+pub fn mk_inst(op: rspirv::spirv::Op, result_type: Option<u32>, result_id: Option<u32>, operands: Vec<dr::Operand>) -> dr::Instruction {
+    dr::Instruction { class: class_of(op), result_type, result_id, operands }
+}
